@@ -238,6 +238,17 @@ def resolveInterRef (d : Loc InterData) : A α (Option IngredientRelation) := do
   | .ok rel => return some rel
   | .error kind => aerr kind [d.span]; return none
 
+def optQuantityOf (env : Env) (q : Option (Loc (PQuantity α))) (isIngredient : Bool) :
+    A α (Option (Quantity (ScalableValue α))) :=
+  match q with
+  | some q => do let r ← quantityOf env q isIngredient; pure (some r)
+  | none => pure none
+
+def optValueOf (env : Env) (q : Option (Loc (PQValue α))) : A α (Option (ScalableValue α)) :=
+  match q with
+  | some q => do let r ← valueOf env q.val false; pure (some r)
+  | none => pure none
+
 /-- label of `note_reference_error` (after the repair): the note span widened over adjacent parentheses -/
 def byteAt (input : Str) (pos : Nat) : Option Char :=
   -- the character that starts at byte `pos`, if `pos` is a boundary
@@ -351,6 +362,14 @@ def ingrRegular (env : Env) (input : Str) (li : Loc (PIngredient α)) (igr0 : In
     | _, _ => apanic "reference target out of range"
     return igr
 
+/-- resolve the (intermediate or regular) reference of the new ingredient and push it -/
+def ingrBuild (env : Env) (input : Str) (li : Loc (PIngredient α)) (igr0 : Ingredient (ScalableValue α)) : A α Nat := do
+  let igr ← (match li.val.inter with
+    | some d => ingrInter li.val igr0 d
+    | none => ingrRegular env input li igr0)
+  modify fun s => { s with locIngr := s.locIngr.push li, ingredients := s.ingredients.push igr }
+  return (← get).ingredients.size - 1
+
 def ingredientA (env : Env) (input : Str) (li : Loc (PIngredient α)) : A α Nat := do
   let i := li.val
   let name0 := i.name.trimmed env.cs
@@ -358,18 +377,12 @@ def ingredientA (env : Env) (input : Str) (li : Loc (PIngredient α)) : A α Nat
   let name := match reference with
     | some r => r.name
     | none => name0
-  let quantity ← (match i.quantity with
-    | some q => do let r ← quantityOf env q true; pure (some r)
-    | none => pure none)
+  let quantity ← optQuantityOf env i.quantity true
   let s0 ← get
   let igr0 : Ingredient (ScalableValue α) :=
     ⟨name, i.alias.map (·.trimmed env.cs), quantity, i.note.map (·.trimmed env.cs), reference,
      ⟨.definition [] (s0.defineMode != .components), none⟩, i.modifiers.val⟩
-  let igr ← (match i.inter with
-    | some d => ingrInter i igr0 d
-    | none => ingrRegular env input li igr0)
-  modify fun s => { s with locIngr := s.locIngr.push li, ingredients := s.ingredients.push igr }
-  return (← get).ingredients.size - 1
+  ingrBuild env input li igr0
 
 /-- the checks of a resolved cookware reference against its definition (diagnostics only) -/
 def cwRefChecks (input : Str) (lc : Loc (PCookware α)) (cw : Cookware (ScalableValue α))
@@ -422,35 +435,44 @@ def cwResolve (env : Env) (input : Str) (lc : Loc (PCookware α)) (cw0 : Cookwar
     | _, _ => apanic "reference target out of range"
     return cw
 
-def cookwareA (env : Env) (input : Str) (lc : Loc (PCookware α)) : A α Nat := do
-  let c := lc.val
-  let quantity ← (match c.quantity with
-    | some q => do let r ← valueOf env q.val false; pure (some r)
-    | none => pure none)
-  let s0 ← get
-  let cw0 : Cookware (ScalableValue α) :=
-    ⟨c.name.trimmed env.cs, c.alias.map (·.trimmed env.cs), quantity, c.note.map (·.trimmed env.cs),
-     .definition [] (s0.defineMode != .components), c.modifiers.val⟩
+/-- resolve the reference of the new cookware item and push it -/
+def cwBuild (env : Env) (input : Str) (lc : Loc (PCookware α)) (cw0 : Cookware (ScalableValue α)) : A α Nat := do
   let cw ← cwResolve env input lc cw0
   modify fun s => { s with locCw := s.locCw.push lc, cookware := s.cookware.push cw }
   return (← get).cookware.size - 1
 
+def cookwareA (env : Env) (input : Str) (lc : Loc (PCookware α)) : A α Nat := do
+  let c := lc.val
+  let quantity ← optValueOf env c.quantity
+  let s0 ← get
+  let cw0 : Cookware (ScalableValue α) :=
+    ⟨c.name.trimmed env.cs, c.alias.map (·.trimmed env.cs), quantity, c.note.map (·.trimmed env.cs),
+     .definition [] (s0.defineMode != .components), c.modifiers.val⟩
+  cwBuild env input lc cw0
+
+/-- the quantity of a timer with its ADVANCED_UNITS checks -/
+def timerQuantityChecks (env : Env) (q : Loc (PQuantity α)) (r : Quantity (ScalableValue α)) : A α Unit := do
+  if env.ext.has Gen.EXT_ADVANCED_UNITS then
+    if r.value.val.isText then aerr "timer-value-text" [q.val.value.value.span]
+    match r.unit with
+    | some u =>
+      let uspan := (q.val.unit.map (·.span)).getD ⟨0, 0⟩
+      match env.findUnit u with
+      | some pq => if pq ≠ env.timeQ then aerr "timer-unit-not-time" [uspan]
+      | none => aerr "timer-unit-unknown" [uspan]
+    | none => pure ()
+
+def timerQuantity (env : Env) (tq : Option (Loc (PQuantity α))) : A α (Option (Quantity (ScalableValue α))) :=
+  match tq with
+  | some q => do
+    let r ← quantityOf env q false
+    timerQuantityChecks env q r
+    pure (some r)
+  | none => pure none
+
 def timerA (env : Env) (lt : Loc (PTimer α)) : A α Nat := do
   let t := lt.val
-  let quantity ← (match t.quantity with
-    | some q => do
-      let r ← quantityOf env q false
-      if env.ext.has Gen.EXT_ADVANCED_UNITS then
-        if r.value.val.isText then aerr "timer-value-text" [q.val.value.value.span]
-        match r.unit with
-        | some u =>
-          let uspan := (q.val.unit.map (·.span)).getD ⟨0, 0⟩
-          match env.findUnit u with
-          | some pq => if pq ≠ env.timeQ then aerr "timer-unit-not-time" [uspan]
-          | none => aerr "timer-unit-unknown" [uspan]
-        | none => pure ()
-      pure (some r)
-    | none => pure none)
+  let quantity ← timerQuantity env t.quantity
   modify fun s => { s with timers := s.timers.push ⟨t.name.map (·.trimmed env.cs), quantity⟩ }
   return (← get).timers.size - 1
 
